@@ -304,7 +304,17 @@ def ef6(facts, rep):
                     ', '.join(sorted(set(badargs))), info['fn'].rsplit('::', 1)[-1]))
             else:
                 rep.ok(rule, key, b.loc(bb), 'arguments: &self.poa, query/parameters only')
-    rep.floor(rule, 'core call sites in Aligner', n, 5)
+    rep.floor(rule, 'core call sites in Aligner', n, 1)
+    # fail closed on the entry points instead of on a call-site count (helpers may merge call sites)
+    for nm in ('global', 'semiglobal', 'local', 'custom'):
+        eb = facts.body('alignment::poa::Aligner::<F>::' + nm)
+        key = 'alignment::poa::Aligner::<F>::%s|reaches-core-routine' % nm
+        if eb is None:
+            rep.missing(rule, key, 'entry point not found')
+        elif set(facts.reachable_bodies([eb])) & cores:
+            rep.ok(rule, key, '%s:%s' % (eb.file, eb.line), 'reaches a Poa routine returning a Traceback')
+        else:
+            rep.missing(rule, key, 'no Poa alignment routine is reachable from this entry point')
 
 
 def ef7(facts, rep):
